@@ -79,6 +79,12 @@ CmStep(g, regs, e) ==
            [regs EXCEPT !.r = [k \in DOMAIN regs.r |->
                IF \E i \in 1..Len(e.regs) : e.regs[i] = k
                THEN e.out[CHOOSE i \in 1..Len(e.regs) : e.regs[i] = k][1] ELSE regs.r[k]]]>>
+    [] f = "batch_long" ->
+         <<\A i \in 1..Len(e.pattern) :
+              /\ GRep(g, e.out[i][1], regs.p[e.pattern[i]])
+              /\ IsNormalizedJ(g, e.out[i][1])
+              /\ e.out[i][2] = TRUE,
+           regs>>
     [] f = "mul" -> LET P == GMul(g, regs.p[e.d], e.k) IN <<GRep(g, e.out, P), SetPJ(regs, e.d, P, e.out)>>
     [] f = "mul_aff" -> LET P == GMul(g, regs.a[e.s], e.k) IN <<GRep(g, e.out, P), SetPJ(regs, e.d, P, e.out)>>
 =============================================================================
